@@ -10,6 +10,7 @@ package guardiand
 import (
 	"bufio"
 	"context"
+	"crypto/ecdsa"
 	"encoding/base64"
 	"encoding/hex"
 	"fmt"
@@ -17,18 +18,23 @@ import (
 	"net/http"
 	"net/http/httptest"
 	"os"
-	"sync"
 	"path/filepath"
 	"strconv"
 	"strings"
+	"sync"
 	"testing"
 	"time"
 
+	"github.com/alephium/wormhole-fork/node/pkg/common"
 	"github.com/alephium/wormhole-fork/node/pkg/db"
 	gossipv1 "github.com/alephium/wormhole-fork/node/pkg/proto/gossip/v1"
 	nodev1 "github.com/alephium/wormhole-fork/node/pkg/proto/node/v1"
+	"github.com/alephium/wormhole-fork/node/pkg/supervisor"
 	"github.com/alephium/wormhole-fork/node/pkg/vaa"
+	ethcommon "github.com/ethereum/go-ethereum/common"
+	"github.com/ethereum/go-ethereum/crypto"
 	"go.uber.org/zap"
+	"google.golang.org/grpc"
 	"google.golang.org/grpc/codes"
 	"google.golang.org/grpc/status"
 )
@@ -135,6 +141,20 @@ func TestVerifDbAdmin(t *testing.T) {
 		r.Read(b)
 		return b
 	}
+	var gkeys []*ecdsa.PrivateKey
+	for i := 0; i < 4; i++ {
+		k, err := ecdsa.GenerateKey(crypto.S256(), r)
+		if err != nil {
+			t.Fatal(err)
+		}
+		gkeys = append(gkeys, k)
+	}
+	_ = ethcommon.Address{}
+	sockDir, err := os.MkdirTemp("", "c12adm")
+	if err != nil {
+		t.Fatal(err)
+	}
+	defer os.RemoveAll(sockDir)
 	node := &c12node{script: map[string]string{}, hits: map[string]int{}}
 	srv1, srv2 := httptest.NewServer(node), httptest.NewServer(node)
 	defer srv1.Close()
@@ -147,6 +167,47 @@ func TestVerifDbAdmin(t *testing.T) {
 		}
 		inC := make(chan *gossipv1.SignedVAAWithQuorum, 256)
 		s := &nodePrivilegedService{db: d, logger: zap.NewNop(), signedInC: inC}
+		// every second case talks to a service built by the production constructor (adminServiceRunnable, run under a
+		// supervisor, called over its unix socket like `guardiand admin` does), with a live GuardianSetState holding a
+		// 4-guardian set; the others call an in-process service value
+		fmmCall := func(ctx context.Context, req *nodev1.FindMissingMessagesRequest) (*nodev1.FindMissingMessagesResponse, error) {
+			return s.FindMissingMessages(ctx, req)
+		}
+		stopSvc := func() {}
+		if c%2 == 1 {
+			gst := common.NewGuardianSetState(nil)
+			gset := &common.GuardianSet{Index: 1}
+			for _, k := range gkeys {
+				gset.Keys = append(gset.Keys, crypto.PubkeyToAddress(k.PublicKey))
+			}
+			gst.Set(gset)
+			sock := filepath.Join(sockDir, fmt.Sprintf("f%d.sock", c))
+			run, err := adminServiceRunnable(zap.NewNop(), sock, make(chan *vaa.VAA, 8), inC, make(chan *gossipv1.ObservationRequest, 8), d, gst,
+				vaa.ChainID(1), vaa.Address{4})
+			if err != nil {
+				t.Fatalf("adminServiceRunnable: %v", err)
+			}
+			sctx, cancel := context.WithCancel(context.Background())
+			supervisor.New(sctx, zap.NewNop(), func(ctx context.Context) error {
+				if err := supervisor.Run(ctx, "admin", run); err != nil {
+					return err
+				}
+				supervisor.Signal(ctx, supervisor.SignalHealthy)
+				<-ctx.Done()
+				return nil
+			})
+			dctx, dcancel := context.WithTimeout(sctx, 20*time.Second)
+			conn, err := grpc.DialContext(dctx, "unix:///"+sock, grpc.WithInsecure(), grpc.WithBlock())
+			dcancel()
+			if err != nil {
+				t.Fatalf("dial admin socket: %v", err)
+			}
+			client := nodev1.NewNodePrivilegedServiceClient(conn)
+			fmmCall = func(ctx context.Context, req *nodev1.FindMissingMessagesRequest) (*nodev1.FindMissingMessagesResponse, error) {
+				return client.FindMissingMessages(ctx, req)
+			}
+			stopSvc = func() { conn.Close(); cancel() }
+		}
 		fmt.Fprintf(w, "reset %s\n", cid)
 		grp := c12fmmGroups[c%len(c12fmmGroups)]
 		tcs := []uint16{grp[0]}
@@ -175,7 +236,7 @@ func TestVerifDbAdmin(t *testing.T) {
 					}
 				}()
 				var err error
-				resp, err = s.FindMissingMessages(context.Background(), &nodev1.FindMissingMessagesRequest{EmitterChain: ec, TargetChain: tc, EmitterAddress: as})
+				resp, err = fmmCall(context.Background(), &nodev1.FindMissingMessagesRequest{EmitterChain: ec, TargetChain: tc, EmitterAddress: as})
 				if err != nil {
 					res = c12fmmTag(err)
 					if resp != nil {
@@ -197,7 +258,7 @@ func TestVerifDbAdmin(t *testing.T) {
 		// script an answer per id, call, then collect what reached the inbound channel
 		bfill := func(ec uint32, ad vaa.Address, tc uint32) {
 			as := hex.EncodeToString(ad[:])
-			pre, err := s.FindMissingMessages(context.Background(), &nodev1.FindMissingMessagesRequest{EmitterChain: ec, TargetChain: tc, EmitterAddress: as})
+			pre, err := fmmCall(context.Background(), &nodev1.FindMissingMessagesRequest{EmitterChain: ec, TargetChain: tc, EmitterAddress: as})
 			if err != nil {
 				return
 			}
@@ -215,9 +276,22 @@ func TestVerifDbAdmin(t *testing.T) {
 					// a VAA for exactly this id (unsigned bytes are fine here: verification is the processor's business)
 					sq, _ := strconv.ParseUint(seq, 10, 64)
 					v := &vaa.VAA{Version: 1, EmitterChain: vaa.ChainID(ec), EmitterAddress: ad, TargetChain: vaa.ChainID(tc), Sequence: sq, Payload: bytesN(1 + r.Intn(30))}
-					sg := &vaa.Signature{Index: 0}
-					copy(sg.Signature[:], bytesN(65))
-					v.Signatures = append(v.Signatures, sg)
+					v.GuardianSetIndex = 1
+					if r.Intn(4) == 0 {
+						sg := &vaa.Signature{Index: 0}
+						copy(sg.Signature[:], bytesN(65))
+						v.Signatures = append(v.Signatures, sg)
+					} else {
+						// really signed by 1..4 of the 4 guardians the constructor-built service knows: fewer than quorum (3) is
+						// what a careless backfill path would let through
+						dg := v.SigningMsg().Bytes()
+						for gi := 0; gi < 1+r.Intn(len(gkeys)); gi++ {
+							sb, _ := crypto.Sign(dg, gkeys[gi])
+							sg := &vaa.Signature{Index: uint8(gi)}
+							copy(sg.Signature[:], sb)
+							v.Signatures = append(v.Signatures, sg)
+						}
+					}
 					b, _ := v.Marshal()
 					node.script[path] = "s:" + fmt.Sprintf(`{"vaaBytes":"%s"}`, base64.StdEncoding.EncodeToString(b))
 					parts = append(parts, seq+":s:"+c12hex(b))
@@ -261,7 +335,7 @@ func TestVerifDbAdmin(t *testing.T) {
 					}
 				}()
 				var err error
-				resp, err = s.FindMissingMessages(context.Background(), &nodev1.FindMissingMessagesRequest{EmitterChain: ec, TargetChain: tc, EmitterAddress: as, RpcBackfill: true, BackfillNodes: nodes})
+				resp, err = fmmCall(context.Background(), &nodev1.FindMissingMessagesRequest{EmitterChain: ec, TargetChain: tc, EmitterAddress: as, RpcBackfill: true, BackfillNodes: nodes})
 				if err != nil {
 					res = c12fmmTag(err)
 				}
@@ -365,6 +439,7 @@ func TestVerifDbAdmin(t *testing.T) {
 				}
 			}
 		}
+		stopSvc()
 		d.Close()
 	}
 }
